@@ -274,12 +274,13 @@ impl SubTraceLoreCtorQueue {
 //@ props C10 C01
 //@ ret r
 //@ spec
-        // call-order precondition (assumed from FoldFSM / the executor, listed): at least one element was added and
-        // the back traversal has not run past the first one; otherwise `back_traversal_pos - 1` / the index panics
-        requires 1 <= old(self).pos() <= old(self).q().len()
+        // TOTAL since the F13 fix (`checked_sub` + `get_mut`): no call-order precondition any more. There is a current
+        // element exactly when at least one was added and the back traversal has not run past the first one
         ensures
-            *r == old(self).q()[old(self).pos() - 1],
-            final(self).q() == old(self).q().update(old(self).pos() - 1, *final(r)),
+            r is Some <==> 1 <= old(self).pos() <= old(self).q().len(),
+            r matches Some(d) ==> *d == old(self).q()[old(self).pos() - 1]
+                && final(self).q() == old(self).q().update(old(self).pos() - 1, *final(d)),
+            r is None ==> final(self).q() == old(self).q(),
             final(self).pos() == old(self).pos(), final(self).started() == old(self).started(),
 //@ end
 
@@ -297,9 +298,8 @@ impl SubTraceLoreCtorQueue {
 //@ lift crates/air-lib/trace-handler/src/state_automata/fold_fsm/lore_ctor_queue.rs :: impl SubTraceLoreCtorQueue :: fn traverse_back
 //@ props C10 C01
 //@ spec
-        // call-order precondition (assumed, listed): there is an element to step back from
-        requires old(self).pos() >= 1
-        ensures final(self).pos() == old(self).pos() - 1, final(self).q() == old(self).q(),
+        // TOTAL since the F13 fix (`saturating_sub`): stepping back from the front stays at the front
+        ensures final(self).pos() == (if old(self).pos() >= 1 { old(self).pos() - 1 } else { 0 }), final(self).q() == old(self).q(),
             final(self).started() == old(self).started(), old(self).wf() ==> final(self).wf(),
 //@ end
 
